@@ -195,6 +195,35 @@ func c07(c *core.Ctx, r *core.Report) {
 				}
 			}
 			r.Check(used, core.FuncName(fn)+"#recover-result", an.Pos(c, rc), "recover()'s result is handed to the classifier", "the value returned by recover() is dropped: a panic is swallowed without marking the iteration failed")
+			// whoever waits for this frame (a `done` channel) is released only after the classification
+			an.Instrs(fn, func(in ssa.Instruction) {
+				isSend := false
+				switch x := in.(type) {
+				case *ssa.Send:
+					isSend = true
+				case *ssa.Select:
+					for _, st := range x.States {
+						if st.Dir == types.SendOnly {
+							isSend = true
+						}
+					}
+				}
+				if !isSend {
+					return
+				}
+				late := false
+				for _, call := range an.AllCalls(fn) {
+					t := an.Callee(call)
+					if t == nil || !core.InModule(t) {
+						continue
+					}
+					classifies := isFail(t) || an.ReachesCall(t, 2, isFail)
+					if classifies && an.ReachableFrom(in, call) {
+						late = true
+					}
+				}
+				r.Check(!late, core.FuncName(fn)+"#release-after-classification", an.Pos(c, in), "the waiting body is released after the recovered value was classified", "the channel send that releases the waiting body comes before the recovered value is classified: the body reads its outcome before the failure is marked, and the mark lands in the next iteration on this worker")
+			})
 		}
 		if classifier == nil {
 			r.Undecided("anchor:classifier", "-", "no function receives recover()'s result")
